@@ -17,6 +17,8 @@ def stmt_evaluators(prog):
     for f in prog.hand_fns():
         if f.is_closure or f.from_expansion:
             continue
+        if not f.locals or ESC not in f.locals[0]:
+            continue      # an evaluator yields an Escape; AST walkers do not
         sw = ops.arg_rooted_switches(f)
         paths = [cp for cp, e in sw.items() if e == STMT]
         if paths:
